@@ -279,9 +279,9 @@ func c05JSONBases() []struct {
 // ---- TestC05_Structured: every node x every mutation, exhaustively ----
 
 func TestC05_Structured(t *testing.T) {
-	st := NewStats("C05", "TestC05_Structured", "enumeration: for each base document (CBOR: 6 claims maps of both profiles, a components array, a component map, 2 helper shapes; JSON: the library's own JSON of 4 claims-sets, components, component, a helper shape) every node (keys and values at every depth) x {null, undefined, empty, duplicate, delete, nest in array/map, tag, indefinite, 8-byte head, bstr-wrap, double, swap with sibling, tag18} and x a pool of ~38 replacement items of every CBOR type (JSON: 9 structural mutations x pool of 31 values incl. 300-deep nesting, 1e400, non-base64); each mutant goes to every CBOR (resp. JSON) entry point incl. the per-type unmarshal methods, both extension types and the populate helpers with flat / embedded / interface-embedded destinations, and (wrapped as payload of a correctly signed tag-18 envelope) to the four COSE entry points; the envelope itself is mutated the same way; both profile claims (CBOR -75000 and 265, JSON psa-profile and eat-profile) are set to every PAIR of pool items; after the calls made for each input a canary battery of ordinary operations on unrelated known-good values must still not panic (state left behind by failed calls). Oracle: recover() - no panic while decoding nor while validating / reading every getter / re-encoding to CBOR and JSON / verifying with 10 keys whatever was returned without error. Non-trivial = the input got past the first decoding layer (well-formed CBOR / valid JSON) or was decoded; distinct = family + input")
+	st := NewStats("C05", "TestC05_Structured", "enumeration: for each base document (CBOR: 6 claims maps of both profiles, a components array, a component map, 2 helper shapes; JSON: the library's own JSON of 4 claims-sets, components, component, a helper shape) every node (keys and values at every depth) x {null, undefined, empty, duplicate, delete, nest in array/map, tag, indefinite, 8-byte head, bstr-wrap, double, swap with sibling, tag18} and x a pool of ~38 replacement items of every CBOR type (JSON: 9 structural mutations x pool of 31 values incl. 300-deep nesting, 1e400, non-base64); each mutant goes to every CBOR (resp. JSON) entry point incl. the per-type unmarshal methods, both extension types and the populate helpers with flat / embedded / interface-embedded destinations, and (wrapped as payload of a correctly signed tag-18 envelope) to the four COSE entry points; the envelope itself is mutated the same way; the root as an indefinite-length container with the break missing, cut after each entry, ending in an item whose last byte is 0xff; both profile claims (CBOR -75000 and 265, JSON psa-profile and eat-profile) are set to every PAIR of pool items; after the calls made for each input a canary battery of ordinary operations on unrelated known-good values must still not panic (state left behind by failed calls). Oracle: recover() - no panic while decoding nor while validating / reading every getter / re-encoding to CBOR and JSON / verifying with 10 keys whatever was returned without error. Non-trivial = the input got past the first decoding layer (well-formed CBOR / valid JSON) or was decoded; distinct = family + input")
 	st.Exhaustive = true
-	st.Require = []string{"decoded-ok", "wellformed-rejected", "family=cbor", "family=json", "family=cose", "family=enc-cbor", "family=enc-json", "mut=null", "mut=duplicate", "mut=swap", "mut=text-length", "mut=cose-header", "mut=text-pool", "mut=signature-shape", "mut=member-pair", "mut=escaped-member-name"}
+	st.Require = []string{"decoded-ok", "wellformed-rejected", "family=cbor", "family=json", "family=cose", "family=enc-cbor", "family=enc-json", "mut=null", "mut=duplicate", "mut=swap", "mut=text-length", "mut=cose-header", "mut=text-pool", "mut=signature-shape", "mut=member-pair", "mut=escaped-member-name", "mut=unterminated-indefinite"}
 	defer st.Flush(t)
 	shard, shards := shardInfo()
 	idx := 0
@@ -317,6 +317,40 @@ func TestC05_Structured(t *testing.T) {
 		// root-level replacements
 		for _, repl := range pool {
 			emit(repl.Clone(), "mut=root-swap")
+		}
+		// the root as an indefinite-length container whose break is MISSING,
+		// cut after each entry, the last value being an item whose final byte
+		// is 0xff (so that the input still ends in the break code's value)
+		if base.node.Kind == icbor.KMap || base.node.Kind == icbor.KArray {
+			endFF := []*icbor.Node{icbor.U(255), icbor.I(-256), icbor.U(65535), icbor.Bstr([]byte{0xff}), icbor.Bstr([]byte{1, 2, 0xff}), icbor.Arr(icbor.U(255)), icbor.Arr().WithIndef(), icbor.Map(icbor.P(icbor.U(1), icbor.U(255)))}
+			n := len(base.node.Pairs)
+			if base.node.Kind == icbor.KArray {
+				n = len(base.node.Items)
+			}
+			for j := 1; j <= n; j++ {
+				for _, last := range endFF {
+					c := base.node.Clone()
+					if c.Kind == icbor.KMap {
+						c.Pairs = c.Pairs[:j]
+						c.Pairs[j-1][1] = last.Clone()
+					} else {
+						c.Items = c.Items[:j]
+						c.Items[j-1] = last.Clone()
+					}
+					enc := icbor.Encode(c.WithIndef())
+					if len(enc) < 2 || enc[len(enc)-1] != 0xff || enc[len(enc)-2] != 0xff {
+						continue
+					}
+					enc = enc[:len(enc)-1] // drop the break
+					if !mine() {
+						continue
+					}
+					c05Run(st, cborFamilies, enc, "mut=unterminated-indefinite").report(t)
+					if isClaims {
+						c05Run(st, coseFamilies, icbor.Encode(c05Envelope(enc)), "mut=unterminated-indefinite").report(t)
+					}
+				}
+			}
 		}
 	}
 	// envelope-level mutation
